@@ -436,6 +436,20 @@ def allclose_nan(a, b, rtol=1e-9, atol=1e-12) -> bool:
         return bool(np.allclose(a, b, rtol=rtol, atol=atol, equal_nan=True))
 
 
+def close_where_ref_finite(got, ref, rtol=1e-9, atol=1e-12) -> bool:
+    """Elementwise closeness wherever the reference value is finite.  Elements
+    whose reference is NaN/inf come from divisions by an (exactly or nearly) zero
+    normalisation; whether rounding noise turns them into NaN, +inf or -inf
+    depends on the order of summation and is not a property of the code under
+    test.  A non-finite *result* where the reference is finite is a mismatch."""
+    got, ref = np.asarray(got, dtype="f8"), np.asarray(ref, dtype="f8")
+    if got.shape != ref.shape:
+        return False
+    m = np.isfinite(ref)
+    with np.errstate(all="ignore"):
+        return bool(np.all(np.isfinite(got[m])) and np.allclose(got[m], ref[m], rtol=rtol, atol=atol))
+
+
 def histogram_reference(cache: dict, edges, closed: str) -> np.ndarray:
     """Per-patch weighted redshift histogram under the closed-side rule,
     counts[patch_index, bin] with patches in increasing id order."""
